@@ -43,7 +43,9 @@ func (i *Info) FromStartElement(s xml.StartElement) error {
 			if err != nil {
 				return BadFormat
 			}
-		case xml.Name{Space: "xml", Local: "lang"}:
+		case xml.Name{Space: "xml", Local: "lang"}, xml.Name{Space: "http://www.w3.org/XML/1998/namespace", Local: "lang"}:
+			// Decoders that translate namespaces report the namespace the xml prefix
+			// is bound to, raw tokens the prefix itself.
 			i.Lang = attr.Value
 		}
 	}
